@@ -31,6 +31,25 @@ THEOREMS = [
     "TornadoModel.C08.pieces_ok",
     "TornadoModel.C08.pieces_machine",
     "TornadoModel.C08.streamed_le_limit",
+    "TornadoModel.C08.splitCommaWs_split",
+    "TornadoModel.C08.readBody_eq_strict",
+    "TornadoModel.C08.strict_accepts_sound",
+    "TornadoModel.C08.strictRead_eq",
+    "TornadoModel.C08.client_agrees_with_strict_partial",
+    "TornadoModel.C08.client_agrees_with_strict_gz_partial",
+    "TornadoModel.C08.witness_nbsp_model",
+    "TornadoModel.C08.witness_nbsp_strict",
+    "TornadoModel.C08.cl_list_space_refuted",
+    "TornadoModel.C08.framing_cl_te_rejected",
+    "TornadoModel.C08.framing_204",
+    "TornadoModel.C08.framing_neither",
+    "TornadoModel.C08.readBody_cl_te_rejected",
+    "TornadoModel.C08.findCrlf_iff",
+    "TornadoModel.C08.findCrlf_none_iff",
+    "TornadoModel.C08.parseHex_iff",
+    "TornadoModel.C08.hexDigitVal_iff",
+    "TornadoModel.C08.headHere_iff",
+    "TornadoModel.C08.findHeadEnd_iff",
 ]
 TRUSTED = [
     "zlib/gzip are opaque: the streaming decompressor's output for the whole encoded body is an input of the model "
@@ -55,7 +74,10 @@ ASSUMPTIONS = [
     "the model's network chunks: more than chunk_size bytes of output from one network chunk followed, in the same "
     "network chunk, by the end of the member and trailing bytes makes the decompress loop raise 'no progress' "
     "(status bad) instead of dropping the trailing bytes (status trail); the Spec rejects both",
-    "HTTP leniencies of the code are part of the strict reader: bare LF, obs-fold, CRs before the LF of the status line",
+    "HTTP leniencies of the code are part of the strict reader: bare LF, obs-fold, CRs before the LF of the status line, "
+    "CR / LF bytes in front of the status line are skipped; "
+    "a list of identical Content-Length members `n, n` is read as n (RFC 9110 8.6 allows it) and shown collapsed; "
+    "HEAD / 304 responses are not checked for framing headers at all",
 ]
 RULE = ("grammar of HTTP/1.x responses (status lines, header sets, CL/chunked/close framing, 1xx, 204/304, HEAD, gzip "
         "complete/truncated/multi-member/corrupt) + byte mutations, each x several segmentations x {streaming, "
@@ -67,7 +89,17 @@ RULE = ("grammar of HTTP/1.x responses (status lines, header sets, CL/chunked/cl
         "a framing rejection is reached; distinct by canonical JSON")
 EXHAUSTIVE = {"quick": False, "thorough": False}
 CLAUSE_CAVEATS = [
-    'Spec.readAll shares parseHead / readBody / gzipRewrite with the model: framing corner cases (1xx bodies, 204 with Content-Length, CL+TE) have no model-independent characterisation beyond statusLine_iff; agreement under gzip holds outside the recorded gz-trail known finding',
+    'the framing decision (Content-Length / list of equal Content-Lengths / Transfer-Encoding / both / 204 / neither) of the '
+    'oracle Spec.strictReadAll is Spec.framing, stated without the model (readBody_eq_strict, strict_accepts_sound tie '
+    '_read_body to it); what the strict reader still SHARES with the model: findHeadEnd (characterised: findHeadEnd_iff = '
+    'end of the leftmost match of one of the four terminators CRLFCRLF / CRLFLF / LFCRLF / LFLF), findCrlf / parseHex inside '
+    'Spec.chunks (characterised: findCrlf_iff = position of the first CRLF, parseHex_iff = non-empty hex digits, base-16 '
+    'value), parseHead (status line: statusLine_iff; header lines: the C06 model, no C08 theorem), gzipRewrite (no '
+    'characterising theorem), and the 1xx / HEAD / 304 rules are written identically on both sides -- on the header line '
+    'grammar and gzipRewrite the oracle cannot disagree with the model',
+    'agreement holds outside two recorded known findings: gz-trail (data behind the first gzip member dropped) and '
+    'cl-list-space (NEL / NBSP accepted between the members of a Content-Length list); both are side conditions of the '
+    '_partial theorems and refuted in full (gzip_trailing_refuted, cl_list_space_refuted)',
 ]
 CLAUSES = {
     "status line grammar": "statusLine_iff",
@@ -75,6 +107,14 @@ CLAUSES = {
                                      "read is prefix stable) + client_segmentation_independent (run segs = run [segs.flatten], all "
                                      "cfg / zlib oracle / eof); also exercised by the tie (>= 3 segmentations of every stream)",
     "returns the status, headers and body a strict reader extracts, or fails when that reader rejects":
+        "client_agrees_with_strict_partial / client_agrees_with_strict_gz_partial (run on the whole stream = Spec.strictReadAll, "
+        "the batch reader whose framing decision Spec.framing is written from RFC 9112 6.3 / RFC 9110 8.6 without the model; "
+        "side conditions, both decidable and both necessary: ZOk (gzip) and Spec.clOws: the members of a Content-Length list "
+        "are separated by comma + SP/HTAB -- cl_list_space_refuted: the code splits with Python's \\s and accepts "
+        "`1,<NBSP>1`, known finding cl-list-space); readBody_eq_strict (under clOws, _read_body + "
+        "is_transfer_encoding_chunked = Spec.framing incl. the header fields left behind, every code and limit), "
+        "strict_accepts_sound (whatever Spec.framing accepts the code accepts identically, no side condition), "
+        "framing_cl_te_rejected / framing_204 / framing_neither / readBody_cl_te_rejected (the corner cases); built on: "
         "client_agrees_with_spec (decompress_response off: run on the whole stream = Spec.readAll, all framings, 1xx chains, limits) + "
         "client_agrees_with_spec_gz (decompress_response on, under the one explicit decidable side condition ZOk on the body handed "
         "to zlib: the decompressor left no data behind the first member); the side condition is necessary: "
@@ -82,15 +122,16 @@ CLAUSES = {
         "for why it is recorded and not repaired); a truncated member and Content-Encoding on a 1xx are covered since the two "
         "fix: commits (gzip_truncated_rejected: a body that stops inside the member fails the fetch, all streams; "
         "interim_flag_irrelevant: the decompressor state an interim response leaves behind is never consulted); with "
-        "client_segmentation_independent this covers every segmentation; Spec.readAll is also the oracle on every case",
+        "client_segmentation_independent this covers every segmentation; Spec.strictReadAll is the oracle on every case",
     "body delivered (after decompression) never exceeds max_body_size":
         "client_body_le_limit (the body of a successful fetch: all framings, all segmentations) + streamed_le_limit (the bytes "
         "handed to streaming_callback so far, at every delivery, for every stream / segmentation / zlib behaviour, whether the "
         "fetch then succeeds or fails; via pieces_ok, deliver_gz_le, gzChunk_le; pieces_machine: the recording machine is the "
         "machine of the other theorems); the oracle states it on every case for the buffered body and for every prefix of "
         "the streaming_callback deliveries",
-    "1xx interim, 204/304, HEAD": "covered by client_agrees_with_spec / client_agrees_with_spec_gz (Spec.read skips 1xx, "
-                                  "204/304/HEAD have no body) and by the tie",
+    "1xx interim, 204/304, HEAD": "covered by client_agrees_with_strict_partial / client_agrees_with_strict_gz_partial "
+                                  "(Spec.strictRead skips 1xx and rejects one that announces a body; HEAD / 304 have no body; "
+                                  "204: framing_204 -- empty body, no Transfer-Encoding, Content-Length absent or 0) and by the tie",
 }
 PARALLEL = True
 CASE_TIMEOUT = int(os.environ.get("VERIF_CASE_TIMEOUT", "60"))   # wall-clock watchdog per case; generous because the box is shared (a case takes ~5 ms)
@@ -194,11 +235,15 @@ def _gen_stream(rng):
         k = rng.random()
         if k < 0.06:
             v = "%s, %s" % (v, v)
-        elif k < 0.10:
-            v = "%s,%s" % (v, rng.choice([v, str(n + 1), "", v + " "]))
-        elif k < 0.13:
-            v = "%s,\xa0%s" % (v, v)
-        elif k < 0.16:
+        elif k < 0.15:
+            v = "%s,%s" % (v, rng.choice([v, str(n + 1), "", v + " ", "0" + v, " 0" + v, "00" + v, "%s,%s" % (v, v), "%s, %d" % (v, n + 1),
+                                          "%s,0%s" % (v, v), "+" + v]))
+        elif k < 0.18:
+            # Python's \s beyond SP / HTAB that survives HTTPHeaders.parse: NEL, NBSP (known finding cl-list-space)
+            v = "%s,%s%s" % (v, rng.choice(["\xa0", "\x85", " \xa0", "\xa0 ", "\t\x85", "\xa0\x85"]), v)
+            if rng.random() < 0.3:
+                v = "%s,%s" % (v, rng.choice([v.split(",")[0], " " + v.split(",")[0], "\xa0"]))
+        elif k < 0.21:
             v = "0" * rng.randint(1, 3) + v
         hdrs.append("Content-Length: " + v)
         if rng.random() < 0.06:
@@ -614,7 +659,11 @@ def model_requests(case, impl):
 def spec_requests(case, impl):
     if case["kind"] == "status":
         return []
-    return [line(ID, "spec", _cfgv(case), b"".join(bytes.fromhex(g) for g in case["segs"]), atom(bool(case["eof"])), _gzv(case))]
+    a = (_cfgv(case), b"".join(bytes.fromhex(g) for g in case["segs"]), atom(bool(case["eof"])), _gzv(case))
+    # [0] the oracle: Spec.strictReadAll (framing decided by Spec.framing, stated without the model);
+    # [1] Spec.readAll (same reader, framing decision taken from the model) -- used ONLY to name the class of a
+    #     violation the oracle has already found (see CL_LIST_SPACE), never to decide whether there is one
+    return [line(ID, "strict", *a), line(ID, "spec", *a)]
 
 
 def _res(reply):
@@ -686,7 +735,12 @@ def spec_violation(case, impl, replies):
         return "wrong-result: streaming_callback invoked after the fetch completed"
     if want == "REJECT":
         if got[0] == "ok":
-            return "accepts-rejected: the strict reader rejects this stream, fetch returned %r" % (got[:3],)
+            why = "accepts-rejected: the strict reader rejects this stream, fetch returned %r" % (got[:3],)
+            if CL_LIST_SPACE.search(_stream(case)) and len(replies) > 1 and _res(replies[1]) == got:
+                # the fetch is exactly what the reader gives once `,\s*` (Python \s: also NEL / NBSP) is allowed
+                # between the members of a Content-Length list: nothing else is wrong with this result
+                why += " " + CL_LIST_SPACE_MARK
+            return why
         return None
     if got[0] != "ok":
         return "fails-valid: the strict reader extracts %r, fetch failed with %s" % (want[:3], got[1])
@@ -699,10 +753,17 @@ def _stream(case):
     return b"".join(bytes.fromhex(g) for g in case["segs"])
 
 
+# a Content-Length field line with a list member preceded (after optional SP/HTAB) by NEL or NBSP
+CL_LIST_SPACE = re.compile(rb"\n[Cc][Oo][Nn][Tt][Ee][Nn][Tt]-[Ll][Ee][Nn][Gg][Tt][Hh][ \t]*:(?:[^\n]|\n[ \t])*,[ \t\r\n]*[\x85\xa0]")
+CL_LIST_SPACE_MARK = "[differs from the strict reader only in the separator of a Content-Length list]"
+
+
 def signature(case, impl, why):
     if case["kind"] == "status":
         return "status/uncaught"
     cls = why.split(":")[0]
+    if cls == "accepts-rejected" and why.endswith(CL_LIST_SPACE_MARK):
+        return "resp/accepts-rejected/cl-list-space"
     tags = []
     g = case.get("gz")
     s = _stream(case)
@@ -757,6 +818,8 @@ def stats(case, impl):
             out.append("bomb:ratio>4")
         if any(len(calls) > 1 for calls in case["zt"]):
             out.append("zlib:several-blocks-per-chunk")
+    if CL_LIST_SPACE.search(_stream(case)):
+        out.append("cl-list:nel/nbsp-separator")
     if case["streaming"]:
         out.append("deliveries:%s" % (0 if not impl["deliveries"] else (1 if len(impl["deliveries"]) == 1 else "2+")))
         if impl["res"][0] != "ok" and impl["deliveries"]:
